@@ -73,7 +73,7 @@ Write(at, c, isPin) ==
 
 \* p is started as a staging peer and joins through `via`
 Join(p, via) ==
-    /\ status[p] \in {"absent", "gone"} /\ p \notin members
+    /\ status[p] = "absent" /\ p \notin members      \* (re-joining a removed peer is not modelled)
     /\ via \in members \cap Up /\ Quorum(members)
     /\ cnt.changes < MaxChanges
     /\ members' = members \cup {p}
